@@ -203,7 +203,13 @@ def stage_proofs(prop, st, thorough=False):
         return code == 0
     target = "Properties/%s.vo" % prop
     t0 = time.time()
-    code, out = run(["make", "-j%d" % NPROC, target, "Extract.vo"], cwd=COQ, timeout=3000)
+    # the executable model first (so that the search for a failing input has the CURRENT tables even
+    # when a proof breaks), then the property's theorems
+    code0, out0 = run(["make", "-j%d" % NPROC, "Extract.vo"], cwd=COQ, timeout=3000)
+    st["model_build_ok"] = code0 == 0
+    code, out = run(["make", "-j%d" % NPROC, target], cwd=COQ, timeout=3000)
+    if code0 != 0:
+        code, out = code0, out0 + out
     st["make_s"] = round(time.time() - t0, 1)
     st["make_ok"] = code == 0
     st["make_tail"] = out[-3000:]
